@@ -7,6 +7,7 @@ import importlib
 import json
 import multiprocessing
 import os
+import re
 import shutil
 import subprocess
 import sys
@@ -75,14 +76,14 @@ def gen_worker(cname, unroll=0, shard=(0, 1)):
     path_has_ob = set()
     for ob in ctx.obligations:
         if prop not in ob.props: continue
-        if unroll and ob.kind not in ('ensures', 'escape', 'raises', 'exit-inv', 'crash-inv', 'frame'): continue
+        if unroll and ob.kind not in ('ensures', 'escape', 'raises', 'exit-inv', 'crash-inv', 'frame', 'call-requires', 'sched-inv', 'call-param'): continue
         full = '%s/%s%s' % (prop, 'unrolled%d:' % unroll if unroll else '', ob.name)
         if full in names: return {'contract': cname, 'tool_limit': 'obligation name collision: ' + full}
         names.add(full)
         fn = solve.write_vc(outdir, full, ob.pc, ob.goal, ob.trace, observe)
         if ob.group is not None and not unroll: by_group.setdefault(ob.group, []).append((full, ob.goal))
         obs.append({'name': full, 'file': fn, 'kind': ob.kind, 'trace': ob.trace, 'line': ob.line, 'func': cname,
-                    'observe': [l for l, _ in observe], 'trivial': bool(core.z3.is_true(core.z3.simplify(ob.goal)))})
+                    'observe': [l for l, _ in observe], 'trivial': bool(core.z3.is_true(core.z3.simplify(ob.goal))), 'hinted': bool(getattr(ob, 'hinted', False))})
     # vacuity guards: the entry state (requires + type invariants) must be satisfiable; every exit path gets a cover
     covers = []
     if shard[0] != 0:
@@ -301,6 +302,38 @@ def main(argv=None):
             known_hits.append((o, r, k)); hit_ids.setdefault(k['id'], []).append(o['name'])
         else:
             violations.append((o, r))
+    # ---- confirmation of refutations that depend on a proof hint.  A counter-model found downstream of a loop head starts from an ARBITRARY state that
+    #      satisfies the contract's loop invariant: if the code was rewritten so that it needs a different invariant, that state is not reachable and the
+    #      refutation says nothing about the property.  Such refutations are re-examined by exact execution (no invariants, up to K iterations per loop):
+    #      a clause refuted there is a genuine execution -> VIOLATION; if every clause holds there, the obligation is UNDECIDED (the proof no longer
+    #      goes through; no execution within the bound breaks the property); if the exact run cannot be completed, the refutation stands as it is.
+    unconfirmed = []
+    hinted_funcs = sorted(set(o['func'] for o, r in violations if o.get('hinted')))
+    if hinted_funcs and not os.environ.get('PYVC_NO_CONFIRM'):
+        K = 2 if args.tier == 'quick' else 3
+        with ctx.Pool(min(args.jobs, len(hinted_funcs))) as pool:
+            ugens = pool.starmap(gen_worker, [(f, K) for f in hinted_funcs], chunksize=1)
+        for f, g in zip(hinted_funcs, ugens):
+            mine = [(o, r) for o, r in violations if o['func'] == f and o.get('hinted')]
+            if 'tool_limit' in g or not g['obligations']:
+                print('note: %s: refutation downstream of a loop invariant could not be re-examined by exact execution (%s): it stands' % (f, str(g.get('tool_limit', 'no obligations'))[:160]))
+                continue
+            with ThreadPoolExecutor(args.jobs) as tp:
+                ures = list(tp.map(lambda o: (o, solve.decide(o['file'], min(budget, 30), refute=False)), g['obligations']))
+            sat = [(o, r) for o, r in ures if r['verdict'] == 'sat' and not any(match_known(k, dict(o, name=o['name'].replace('unrolled%d:' % K, ''))) for k in known)]
+            unk = [(o, r) for o, r in ures if r['verdict'] not in ('sat', 'unsat')]
+            if sat:
+                for o, r in sat:
+                    r['solver'] = (r['solver'] or '') + ' (exact execution, at most %d iterations per loop)' % K
+                    violations.append((o, r))
+            elif unk:
+                print('note: %s: exact execution left %d clause(s) undecided: the refutation under the loop invariant stands' % (f, len(unk)))
+            else:
+                for o, r in mine:
+                    violations.remove((o, r))
+                    unconfirmed.append((o, dict(r, verdict='unknown', output='refuted only from an arbitrary state satisfying the stated loop invariant; all %d clauses hold on every exact execution with at most %d iterations per loop '
+                                                '(the invariant no longer fits this code, or a defect needs more iterations)' % (len(ures), K))))
+    undecided += unconfirmed
     for fid_, names in hit_ids.items():
         k = next(f for f in known if f['id'] == fid_)
         print('KNOWN-FINDING: property=%s %s [%s; %d obligation(s) refuted as recorded]' % (prop, k['what'], fid_, len(names)))
@@ -379,8 +412,16 @@ def main(argv=None):
     ep = os.path.join(ROOT, 'specs', 'EXPECTED.json')
     if os.path.exists(ep): expected = json.load(open(ep))
     n_ob = len(obs)
-    if not args.only and n_ob < expected.get(prop, 1):
-        print('ENGINE-SELF-CHECK failed: %d obligations generated for %s, expected at least %d' % (n_ob, prop, expected.get(prop, 1)))
+    # counted by DISTINCT clause (function + clause label, without the path / line / repetition suffixes): the number of paths of a function changes with harmless
+    # restructuring, the set of clauses that must be asked about it does not
+    distinct = set(re.sub(r'(@path\d+|~\d+|&\d+|@L\d+|@[a-z\-]+\([^)]*\):L\d+)', '', o['name']) for o in obs)
+    n_distinct = len(distinct)
+    if os.environ.get('PYVC_PRINT_DISTINCT'): print('distinct clauses: %s %d' % (prop, n_distinct))
+    if not args.only and n_distinct < expected.get(prop + ':distinct', 1):
+        print('ENGINE-SELF-CHECK failed: %d distinct clauses asked for %s, expected at least %d' % (n_distinct, prop, expected.get(prop + ':distinct', 1)))
+        if exit_code == 0: exit_code = 3
+    if not args.only and not limits and n_ob < expected.get(prop, 1) // 4:
+        print('ENGINE-SELF-CHECK failed: %d obligations generated for %s, expected at least %d' % (n_ob, prop, expected.get(prop, 1) // 4))
         if exit_code == 0: exit_code = 3
     vacuous = [o for o, r in discharged if any((o['func'], p) in dead_paths for p in [path_of(o['name'])] if p is not None)]
     wall = time.time() - t_start
